@@ -43,6 +43,33 @@ def identifiers(maxseg):
     return out
 
 
+CASE_RECORDS = [mrec("bao", "http://www.BioAssayOntology.org/bao#BAO_"), mrec("up", "HTTPS://up.example/x/"), mrec("URN", "URN:x:")]
+
+
+def check_location_case(d):
+    """Location must equal the expansion also when the URI prefix writes scheme or host with capital letters.  Werkzeug passes
+    every Location through an urlsplit / urlunsplit round trip that lower-cases both - a listed finding (known_findings.json)
+    with its own unit and signature; anything else that differs here is reported under the ordinary signatures."""
+    from curies.resolver_service import get_fastapi_app, get_flask_app
+
+    fails = []
+    conv = Converter([to_record(r) for r in CASE_RECORDS], delimiter=d)
+    fl, fa = get_flask_app(conv).test_client(), AsgiClient(get_fastapi_app(conv))
+    for r in CASE_RECORDS:
+        path = "/" + r.prefix + d + "0000001"
+        want = (302, r.uri_prefix + "0000001")
+        r1 = fl.get(path)
+        got1 = (r1.status_code, r1.headers.get("Location"))
+        r2 = fa.get(path)
+        got2 = (r2.status_code, r2.headers.get("location"))
+        if got2 != want:
+            fails.append(("fastapi/location-differs-from-expand", f"delimiter {d!r} GET {path}: fastapi answered {got2}, expected {want}"))
+        if got1 != want:
+            lowered = got1[0] == 302 and got1[1] is not None and got1[1].lower() == want[1].lower()
+            fails.append(("flask/location-scheme-or-host-lower-cased" if lowered else "flask/location-differs-from-expand", f"delimiter {d!r} GET {path}: flask answered {got1}, expected {want}"))
+    return fails
+
+
 def units(tier, seed):
     ids = identifiers(3 if tier == "quick" else 4)
     us = []
@@ -52,6 +79,7 @@ def units(tier, seed):
             for ch in chunks(mine, (8 if tier == "quick" else 32) if ci < 3 else 2):
                 us.append({"conv": ci, "delim": d, "ids": ch})
     us += [{"kind": "shared", "delim": d} for d in DELIMS]
+    us += [{"kind": "location-case", "delim": d} for d in DELIMS]
     # breadth sweep: every URL-path-safe punctuation character (RFC 3986 unreserved / sub-delims / ':' / '@') inside, before and
     # after a segment, alone and in a two-segment identifier
     sw = []
@@ -225,6 +253,11 @@ def check_shared_process(d, ctx=None):
 
 
 def run_unit(unit, ctx):
+    if unit.get("kind") == "location-case":
+        ctx.count("transitions", 2 * len(CASE_RECORDS))
+        for sig, msg in check_location_case(unit["delim"])[:3]:
+            ctx.violation("C17/" + sig, msg, {"kind": "location-case", "delim": unit["delim"]})
+        return
     if unit.get("kind") == "shared":
         for sig, msg in check_shared_process(unit["delim"], ctx)[:3]:
             ctx.violation("C17/" + sig, msg, {"kind": "shared", "delim": unit["delim"]})
@@ -244,6 +277,8 @@ def run_unit(unit, ctx):
 
 
 def replay(case):
+    if case.get("kind") == "location-case":
+        return [("C17/" + s_, m_) for s_, m_ in check_location_case(case["delim"])]
     if case.get("kind") == "shared":
         return [("C17/" + s, m) for s, m in check_shared_process(case["delim"], None)]
     return [("C17/" + s, m) for s, m in check(case["conv"], case["delim"], case["prefix"], case["identifier"], None)]
